@@ -1,3 +1,5 @@
+import GenlmModel.Proofs.GenLink.Wfsa
+import GenlmModel.Proofs.GenLink.WfsaString
 import Batteries.Tactic.Alias
 import GenlmModel.Proofs.Star
 import GenlmModel.Proofs.Wfsa
@@ -7,6 +9,21 @@ import GenlmModel.Proofs.GapFromStrings
 Exact-length path identities, every commutative semiring, operands with ε arcs and several
 initial/final states. -/
 namespace Genlm.Props.C12
+/-! ## re-checked tie to the source: the definitions REGENERATED from the Python builder functions on every run
+(`Generated/Builders.lean`, by `harness/translate.py`) are the hand-written models the theorems below are about -/
+alias gen_WFSA_lift_eq_model := Genlm.gen_WFSA_lift_eq_model
+alias gen_WFSA_from_string_eq_model := Genlm.gen_WFSA_from_string_eq_model
+alias gen_WFSA_zero_eq_model := Genlm.gen_WFSA_zero_eq_model
+alias gen_WFSA_one_eq_model := Genlm.gen_WFSA_one_eq_model
+alias gen_WFSA_reverse_eq_model := Genlm.gen_WFSA_reverse_eq_model
+alias gen_WFSA_add_eq_model := Genlm.gen_WFSA_add_eq_model
+alias gen_WFSA_mul_eq_model := Genlm.gen_WFSA_mul_eq_model
+alias gen_WFSA_kleene_plus_eq_model := Genlm.gen_WFSA_kleene_plus_eq_model
+alias gen_WFSA_from_string_default := Genlm.gen_WFSA_from_string_default
+alias gen_WFSA_add_path_sums := Genlm.gen_WFSA_add_Pk
+alias gen_WFSA_mul_path_sums := Genlm.gen_WFSA_mul_Pk
+alias gen_WFSA_kleene_plus_path_sums := Genlm.gen_WFSA_kleene_plus_Pk
+
 alias union_is_sum := Genlm.union_Pk
 alias concat_is_cauchy_product := Genlm.concat_Pk
 alias plus_unfolds := Genlm.kleenePlus_Pk
